@@ -117,7 +117,7 @@ func topsText(ops []TOp) []string {
 func gnats(rs []int) string {
 	ss := make([]string, len(rs))
 	for i, r := range rs {
-		ss[i] = fmt.Sprint(r)
+		ss[i] = lib.GNat(r)
 	}
 	return lib.GList(ss, "nat")
 }
@@ -131,7 +131,7 @@ func (o TOp) gallina() string {
 	case "Hash":
 		ss := make([]string, len(o.Rs))
 		for i, r := range o.Rs {
-			ss[i] = lib.GPair(lib.GStr(o.Ks[i]), fmt.Sprint(r))
+			ss[i] = lib.GPair(lib.GStr(o.Ks[i]), lib.GNat(r))
 		}
 		return "IWrapHash " + lib.GList(ss, "str * nat")
 	case "Add":
@@ -145,9 +145,13 @@ func (o TOp) gallina() string {
 		for i, s := range o.S {
 			ss[i] = lib.GStr(s)
 		}
+		// enumtype.go:85-98: the flag is an argument of its own and is cut off the members afterwards
 		spare := o.I
 		if o.CI {
 			spare = 1
+		}
+		if len(o.S) == 0 {
+			spare = 0 // Enum[flag]: enumtype.go:69, an empty literal
 		}
 		return fmt.Sprintf("IEnumLit %s %s %d", lib.GBool(o.CI), lib.GList(ss, "str"), spare)
 	case "PType":
@@ -181,10 +185,13 @@ func isASCII(s string) bool {
 	return true
 }
 
+// tyInModel: the type lies in the fragment of the model.  The aliases Data and RichData (results of the fallback
+// ladder of commonType) are outside: the model of assignability (Model/Lattice.v, property C04) knows them only as
+// results, not as operands of a later inference.
 func tyInModel(t *types.VerifTy) bool {
 	switch t.K {
 	case "Other", "Alias", "Iterable", "Nil", "Float", "Pattern", "Regexp":
-		return t.K == "Alias" && (t.S == "Data" || t.S == "RichData")
+		return false
 	}
 	for _, s := range t.Strs {
 		if !isASCII(s) {
@@ -486,7 +493,9 @@ func runT(ops []TOp, touch bool) *THistory {
 		if ok && touch && ro.Clean {
 			// the read-only operations (type inference, printing, hashing, serializing) on the new entry
 			collh.Touch(res)
-			ok = compare(i)
+			if ok = compare(i); !ok {
+				h.Change.What += " (by the read-only operations on the result of the step)"
+			}
 		}
 		if !ok || !ro.Clean {
 			h.Ops = ops[:i+1]
@@ -533,7 +542,7 @@ func tinput(ops []TOp, touch bool) map[string]interface{} {
 func tviolation(h *THistory) lib.Violation {
 	c := h.Change
 	return lib.Violation{Clause: "immutability",
-		What: fmt.Sprintf("step %d (%s) changed the %s of the %s v%d (obtained by %s): before %s, after %s", c.Step, h.Ops[c.Step].String(),
+		What: fmt.Sprintf("step %d (%s; then its result is walked, printed and hashed) changed the %s of the %s v%d (obtained by %s): before %s, after %s", c.Step, h.Ops[c.Step].String(),
 			c.What, h.Kinds[c.Value], c.Value, h.Ops[c.Value].String(), c.Before, c.After),
 		Input: tinput(h.Ops[:c.Step+1], h.Touch),
 		// one group per (offending operation, kind of the changed entry, operation that had returned it)
